@@ -22,7 +22,7 @@ AddMixed == /\ Channel /\ corr = NoCorr /\ Len(es) < MaxLen
 Extend == /\ corr.c = "dimmix" /\ Len(es) < MaxLen
           /\ \E e \in Entries : es' = Append(es, e) /\ corr' = corr
 Corrupt == /\ corr = NoCorr /\ es # <<>>
-           /\ \E c \in {"lead", "dbl", "foreign", "nosep", "third"}, at \in 1..Len(es) :
+           /\ \E c \in {"lead", "dbl", "foreign", "wsafter", "nosep", "third"}, at \in 1..Len(es) :
                  /\ Applicable(es, [c |-> c, at |-> at], Channel)
                  /\ corr' = [c |-> c, at |-> at] /\ es' = es
 Next == AddEntry \/ AddMixed \/ Extend \/ Corrupt
